@@ -1774,6 +1774,13 @@ class Engine:
             return lib(self, node, *args, **kw)
         if '.' in name:
             cname, meth = name.split('.', 1)
+            ck = None
+            hitc = self.repo.find_class(rel, cname)
+            if hitc:
+                ck = (hitc[0], '{}.{}'.format(hitc[1][0].name, meth))
+            if ck in self.contracts and self.contracts[ck].get('classmethod'):
+                r = self.repo.resolve_method(hitc[0], hitc[1][0].name, meth)
+                return self.call_contract(ck, self.contracts[ck], r[2], [VOpaque('class ' + cname)] + list(args), kw, node, None)
             hit = self.repo.find_class(rel, cname)
             if hit and args and isinstance(args[0], VObj):
                 r = self.repo.resolve_method(rel, cname, meth)
@@ -2097,6 +2104,14 @@ def sf_old(eng, node, env):
 sf_old.raw = True
 
 
+def _edgepairs(g):
+    """the edge list of abstract graph g as a sequence of pairs"""
+    t = z3.Int('edge!j')
+    p = VPairs(specs.gnedges(g), z3.Lambda([t], specs.gedge1(g, t)), z3.Lambda([t], specs.gedge2(g, t)))
+    p.edges_of = g
+    return p
+
+
 def sf_final(eng, node, name):
     """value of a local variable of the function under verification at its exit (witness for an existential post)"""
     env = getattr(eng, 'final_env', None)
@@ -2192,6 +2207,9 @@ SPEC_FUNCS = {
     'imapsub': lambda eng, node, sq, A, n: VSeq(specs.imapsub(_term(sq), as_arr(A).arr, toz(n))),
     'isperm': lambda eng, node, A, n, base: specs.isperm(as_arr(A).arr, toz(n), toz(base)),
     'lam2': sf_lam2, 'card2': lambda eng, node, st: specs.card2(st.arr),
+    'mvar': _wrap(specs.mvar), 'gorder': _wrap(specs.gorder), 'gnedges': _wrap(specs.gnedges),
+    'gedge1': _wrap(specs.gedge1), 'gedge2': _wrap(specs.gedge2),
+    'edgepairs': lambda eng, node, g: _edgepairs(toz(g)),
     'gdom': _wrap(specs.gdom), 'grng': _wrap(specs.grng), 'rowlits': _wrap(specs.rowlits), 'collits': _wrap(specs.collits),
     'm_complete': _wrap(specs.m_complete), 'm_functional': _wrap(specs.m_functional),
     'm_surjective': _wrap(specs.m_surjective), 'm_injective': _wrap(specs.m_injective),
